@@ -809,6 +809,10 @@ func (db *DB) readWALPageOffsets(f *os.File) (_ map[uint32]int64, lastCommit uin
 	r := NewWALReader(f)
 	if err := r.ReadHeader(); err == io.EOF {
 		return nil, 0, nil
+	} else if err != nil {
+		// A log whose header is invalid (bad magic or version) holds no valid
+		// frame. The reader has no byte order to verify frames with in that case.
+		return nil, 0, nil
 	}
 
 	// Read the offset of the last version of each page in the WAL.
